@@ -772,8 +772,14 @@ class ExcelCompiler:
                 # loaded with a stored result has no unevaluated precedent
                 self.range_todos.append(str(address))
 
-            self.range_todos.append(str(excel_data.address))
-            new_nodes = build_range(excel_data) + ref_nodes
+            if excel_data.address.is_range:
+                self.range_todos.append(str(excel_data.address))
+                new_nodes = build_range(excel_data) + ref_nodes
+            elif str(excel_data.address) in self.cell_map:
+                # the used part of an unbounded range can be a single cell
+                new_nodes = ref_nodes
+            else:
+                new_nodes = build_cell(excel_data) + ref_nodes
         else:
             new_nodes = build_cell(excel_data)
 
@@ -800,7 +806,7 @@ class ExcelCompiler:
                 bounded_addr = str(self.eval(cell_range))
                 bounded_addr_cell = self.cell_map.get(bounded_addr)
                 if bounded_addr_cell.value is None:
-                    self._evaluate_range(bounded_addr)
+                    self._evaluate(bounded_addr)
                 data = bounded_addr_cell.value
 
             elif cell_range.formula is None:
